@@ -50,7 +50,7 @@ def rand_inputs(rng, sg, variant):
 
 
 def np_dtype(T):
-    return np.dtype({"int8": "<i1", "uint8": "<u1", "int16": "<i2", "int32": "<i4", "int64": "<i8"}.get(T.dtype, "<u1"))
+    return np.dtype({"int8": "<i1", "uint8": "<u1", "int16": "<i2", "int32": "<i4", "int64": "<i8", "float32": "<f4"}.get(T.dtype, "<u1"))
 
 
 def store(arena, off, T, val):
@@ -65,7 +65,7 @@ def load(arena, off, T):
     dt = np_dtype(T)
     if off + n * dt.itemsize > len(arena):
         raise npuexec.ExecError("tensor %s lies outside the arena" % T.name)
-    return np.frombuffer(arena[off : off + n * dt.itemsize].tobytes(), dtype=dt).astype(np.int64).reshape(T.shape)
+    return np.frombuffer(arena[off : off + n * dt.itemsize].tobytes(), dtype=dt).astype(np.float64 if dt.kind == "f" else np.int64).reshape(T.shape)
 
 
 def run_output_model(art, acc, inputs_by_name, poison, counters):
